@@ -232,7 +232,7 @@ func TestVerif_C19_commit(t *testing.T) {
 			case !thorough && n <= 3:
 				wls = []wl{{[]uint64{1, 1, 1}, 3}, {[]uint64{2, 1, 1}, 4}, {[]uint64{1, 1, 2}, 3}, {[]uint64{2, 2, 1}, 3}, {[]uint64{1, 1, 1, 1}, 3}, {[]uint64{2, 1, 1, 1}, 3}}
 			case !thorough:
-				wls = []wl{{[]uint64{1, 1, 1}, 3}, {[]uint64{2, 1, 1}, 3}, {[]uint64{1, 1, 2}, 3}, {[]uint64{2, 2, 1}, 3}, {[]uint64{1, 1, 1, 1}, 3}, {[]uint64{2, 1, 1, 1}, 3}}
+				wls = []wl{{[]uint64{1, 1, 1}, 3}, {[]uint64{2, 1, 1}, 3}, {[]uint64{1, 1, 1, 1}, 3}}
 			case n <= 4:
 				wls = []wl{{[]uint64{1, 1, 1}, 4}, {[]uint64{2, 1, 1}, 4}, {[]uint64{1, 1, 2}, 4}, {[]uint64{2, 2, 1}, 4}, {[]uint64{1, 2, 2}, 4}, {[]uint64{1, 1, 1, 1}, 4}, {[]uint64{2, 1, 1, 1}, 4}, {[]uint64{1, 1, 1, 2}, 3}, {[]uint64{2, 2, 1, 1}, 3}}
 			default:
